@@ -20,7 +20,7 @@ TECHNIQUE = (
 )
 RULE = (
     "Generated operator cards with 1-5 targets whose (scale, nf) produce paths of 1-7 blocks (0-3 matchings; upward, "
-    "downward, mixed in scale), LO/NLO, 2-3 point grids, matching ratios in [0.5, 2]. (a) An independent path model "
+    "downward, mixed in scale), LO/NLO, 2-3 point grids, matching ratios in [0.5, 2] (in a quarter of the cases chosen so that the charm matching scale lies above the bottom one). (a) An independent path model "
     "written from the property statement gives, per target, the ordered list of segments (origin, target, nf) and "
     "matchings (scale, heavy quark, inverse); the archive's parts/ and parts/matching/ directories (headers read from the "
     "YAML files in the tar, arrays from the sibling lz4 files, no use of the repository's name encoding) must contain "
@@ -66,6 +66,10 @@ def strategy(tier):
             j = draw(st.integers(0, len(base["mugrid"]) - 1))
             if i != j:
                 base["mugrid"][j] = [base["mugrid"][i][0], draw(st.sampled_from((3, 4, 5, 6)))]
+        # unordered matching scales (charm wall above the bottom wall) are valid input: "any matching-scale ratios"
+        if draw(st.integers(0, 3)) == 0:
+            base["masses"][0] = max(base["masses"][0], 1.5)
+            base["ratios"][0], base["ratios"][1] = 2.0, 0.5
         seen, mg = set(), []
         for m, n in base["mugrid"]:
             if (m, n) not in seen:
@@ -171,7 +175,7 @@ def check_case(case):
                 union.append(b)
     nblocks = max(len(p) for p in paths.values())
     shared = sum(len(p) for p in paths.values()) > len(union)
-    res.classes = [f"order={c['order'][0]}", f"targets={len(targets)}", f"maxblocks={nblocks}", f"shared={shared}"]
+    res.classes = [f"order={c['order'][0]}", f"targets={len(targets)}", f"maxblocks={nblocks}", f"shared={shared}", f"walls-ordered={walls2[0] <= walls2[1] <= walls2[2]}"]
     for t in targets:
         res.classes.append("dir=" + ("up" if t[1] > nf0 else "down" if t[1] < nf0 else "fixed"))
     res.key = [c["order"], nf0, sorted(n for _, n in targets), len(c["xgrid"]), c["method"]]
